@@ -20,7 +20,9 @@ import (
 
 var probes = []string{"[@-Z]i", `[\p{Lu}]i`, "[K]i", "[a-z]", "[a-z]i", "[A-Z]i", "[^a-c]", "[^a-c]i", `[\pL]`, `[\p{Ll}]i`,
 	"[0-9a-fA-F]", "[Z-a]i", "[A-a]i", `[\p{Greek}a]i`, "[k]i", "[ß]i", `[\x00-\x7f]`, `[^\x00-\x7f]i`, "[]", "[^]", `[\]\\-]`,
-	"[à-ÿ]i", "[J-L]i", `[\p{N}\p{White_Space}]`, "[_a-zA-Z0-9]", "[+\\-*/]"}
+	"[à-ÿ]i", "[J-L]i", `[\p{N}\p{White_Space}]`, "[_a-zA-Z0-9]", "[+\\-*/]",
+	// boundary runes of the table: 0, 127 (last entry), 128 (first rune outside), as char, range start, range end, class member
+	`[\x00]`, `[\x7f]`, `[\x80]`, `[^\x7f]`, `[\x7e-\x80]`, `[\x7f-é]`, `[\x00-\x00]`, `[^\x20-ÿ]`, `[\p{Cc}]`, `[^\p{Cc}]`, `[\x7f-\x7f]`, `[}-\x7f]`, `[\x00-\x01]`, `[\x80-ÿ]`, `[\p{Zs}\x7f]`}
 
 func ints(rs []rune) string {
 	p := make([]string, len(rs))
@@ -44,11 +46,23 @@ func main() {
 			set[raw] = true
 		}
 	}
+	// probes first (the run-time comparison takes a prefix of the list), then the mined classes in sorted order
 	raws := make([]string, 0, len(set))
 	for r := range set {
 		raws = append(raws, r)
 	}
 	sort.Strings(raws)
+	isProbe := map[string]bool{}
+	for _, p := range probes {
+		isProbe[p] = true
+	}
+	ordered := append([]string(nil), probes...)
+	for _, r := range raws {
+		if !isProbe[r] {
+			ordered = append(ordered, r)
+		}
+	}
+	raws = ordered
 	for _, raw := range raws {
 		c := ast.NewCharClassMatcher(ast.Pos{}, raw)
 		tb := builder.BasicLatinLookup(c.Chars, c.Ranges, c.UnicodeClasses, c.IgnoreCase)
